@@ -185,4 +185,22 @@ def hasIgnoredB (h : NNet) (c : Nat) (m : NNet) : Bool :=
   | some sh =>
     (sh.inPorts.zip (padTo (h.net.node c).ins sh.inPorts.length)).any fun p => p.2.isSome && ignoredPort m p.1
 
+/-- every substitution that `resolve_tlib_cells` performs along the key list satisfies the hypotheses of `substitute_sem_general`: the
+    implementation is well-formed and satisfies `implGenOKB` (with or without designated cell), no ignored connected pin is
+    driven by the cell itself, the substituted node is neither a port nor a fork, and none of them raises (decidable: computed
+    along the loop of `resolveCells`); substitutions may remove lines, the instance and dangling logic -/
+def resolveGenOKB (lib : Lib) : List (String × Bool) → NNet → Bool
+  | [], _ => true
+  | key :: rest, cur =>
+    let i := cur.lookup key
+    if i < cur.net.nodes.size then
+      match lib.find (cur.net.node i).kind with
+      | some impl =>
+        impl.wf && implGenOKB impl && noSelfIgnB cur i impl && !(cur.net.io.contains i) && !((cur.net.node i).isFork) &&
+          (match substitute cur i impl with
+           | some nxt => resolveGenOKB lib rest nxt
+           | none => false)
+      | none => resolveGenOKB lib rest cur
+    else resolveGenOKB lib rest cur
+
 end KV.Transform
